@@ -7,8 +7,9 @@ Import ListNotations.
 Open Scope Z_scope.
 
 Section WithNps.
-Variable nps : list nat.
+Variable nps ncs : list nat.
 Hypothesis Hnps : nps_ok nps.
+Hypothesis Hncs : nps_ok ncs.
 
 Lemma run14_app a l1 l2 :
   run14 nps a (l1 ++ l2) =
@@ -36,6 +37,17 @@ Proof.
   induction l as [|e l IH]; intros prev w h dt k H; cbn [run14]; auto.
   cbn [forallb] in H. apply andb_prop in H as [H1 H2].
   destruct e; try discriminate; cbn [step14 a_mode]; now rewrite IH.
+Qed.
+
+Lemma run14_coros n : forall a prev w h dt k,
+  n = O \/ k = np_of nps h ->
+  run14 nps {| a_prev := prev; a_mode := MFrame w h dt k |} (coros w a n)
+  = Some {| a_prev := prev; a_mode := MFrame w h dt k |}.
+Proof.
+  unfold coros. induction n as [|n IH]; intros a prev w h dt k Hk; [reflexivity|].
+  destruct Hk as [Hk|Hk]; [discriminate|]. subst k.
+  cbn [seq map run14 step14 a_mode a_prev]. rewrite Nat.eqb_refl, Z.eqb_refl. cbn [andb].
+  apply IH. now right.
 Qed.
 
 (* ---- what a computation does to the checker ------------------------------ *)
@@ -329,7 +341,7 @@ Lemma transfer l : forall prev w h dt k a1 a2,
 Proof.
   induction l as [|e l IH]; intros prev w h dt k a1 a2; cbn [run14].
   - intros [= <-] [= <-]. left. auto.
-  - destruct e as [| | | |o a cw ch|hh ww|ww ev|out ww hh| |]; cbn [step14 mp a_mode a_prev Nat.ltb Nat.leb];
+  - destruct e as [| | | | |o a cw ch|hh ww|ww ev|out ww hh| |]; cbn [step14 mp a_mode a_prev Nat.ltb Nat.leb];
       try discriminate.
     + destruct (is_callback o); [|discriminate].
       destruct a as [| |q|h1 cc cn ex|h1 cc cn| |hd ccd cnd]; cbn [act14' act14 a_prev mp];
@@ -340,27 +352,30 @@ Proof.
     + destruct out as [[|]| |]; discriminate.
 Qed.
 
-(* how an iteration goes on after the acting processor *)
-Lemma after14 fuel x rest w h dt pos t s2 l2 r2 s' l r :
+(* how an iteration goes on after the acting processor / coroutine *)
+Lemma after14 fuel x w h dt pb cb nc t s2 l2 r2 s' l r :
   x = Some (s2, l2, r2) -> inv s2 -> (is_sw r2 = false -> cur_ok s2) ->
   (forall tail,
-     run14 nps {| a_prev := Some t; a_mode := MFrame w h dt (S pos) |} (l2 ++ tail)
+     run14 nps {| a_prev := Some t; a_mode := MFrame w h dt pb |} (l2 ++ tail)
      = run14 nps {| a_prev := Some t;
                     a_mode := match r2 with
-                              | RNorm => MFrame w h dt (S pos)
+                              | RNorm => MFrame w h dt pb
                               | _ => MPend (pend_of r2 s2 PSwitch)
                               end |} tail) ->
-  rest = procs w dt (S pos) (np_of nps h - S pos) -> (S pos <= np_of nps h)%nat ->
-  after_action fuel x rest = Some (s', l, r) ->
+  (pb <= np_of nps h)%nat ->
+  after_action fuel x (procs w dt pb (np_of nps h - pb) ++ coros w cb (nc - cb)) = Some (s', l, r) ->
   inv s' /\ cur_ok s' /\
-  exists a', run14 nps {| a_prev := Some t; a_mode := MFrame w h dt (S pos) |} l = Some a' /\
+  exists a', run14 nps {| a_prev := Some t; a_mode := MFrame w h dt pb |} l = Some a' /\
              a_prev a' = Some t /\ end_mode r s' (a_mode a').
 Proof.
-  intros -> I2 C2 Run -> Hpos. unfold after_action.
+  intros -> I2 C2 Run Hpb. unfold after_action.
   destruct r2 as [|[| |h2 cc2 cn2 t2]].
   - st_inv. split; [exact I2|]. split; [exact (C2 eq_refl)|].
-    rewrite Run, run14_procs. eexists. split; [reflexivity|]. split; [reflexivity|].
-    right. exists w, h, dt. cbn. f_equal. lia.
+    rewrite Run, run14_app, run14_procs.
+    replace (pb + (np_of nps h - pb))%nat with (np_of nps h) by lia.
+    rewrite run14_coros by (right; reflexivity).
+    eexists. split; [reflexivity|]. split; [reflexivity|].
+    right. exists w, h, dt. reflexivity.
   - st_inv. split; [exact I2|]. split; [exact (C2 eq_refl)|].
     rewrite <- (app_nil_r l2), Run. cbn [run14]. eexists. split; [reflexivity|].
     split; reflexivity.
@@ -379,7 +394,7 @@ Qed.
 Lemma frame14 fuel last f s s' l r a :
   ready (a_mode a) -> a_prev a = last -> inv s -> cur_ok s ->
   frame_origin_ok f = true ->
-  run_frame fuel nps last f s = Some (s', l, r) -> nok10 l = true ->
+  run_frame fuel nps ncs last f s = Some (s', l, r) -> nok10 l = true ->
   inv s' /\ cur_ok s' /\
   exists a', run14 nps a l = Some a' /\ a_prev a' = Some (f_t f) /\ end_mode r s' (a_mode a').
 Proof.
@@ -389,16 +404,22 @@ Proof.
   specialize (C1 eq_refl). cbn in Fw, Fh.
   set (dt := match last with None => 0 | Some l0 => f_t f - l0 end).
   set (np := np_of nps (s_curh s)).
-  set (pos := eff_pos (f_org f) (f_pos f) np).
+  set (nc := np_of ncs (s_curh s)).
   assert (Hnp : (1 <= np)%nat) by (apply np_of_pos; exact Hnps).
-  assert (Hpos : (S pos <= np)%nat) by (apply eff_pos_lt; exact Hnp).
-  set (head := EClock (f_t f) (s_curw s) (s_curh s) :: procs (s_curw s) dt 0 (S pos)).
+  assert (Hnc : (1 <= nc)%nat) by (apply np_of_pos; exact Hncs).
+  destruct (procs_upto_bounds (f_org f) (f_pos f) np Hnp) as (pos&Epb&Hpos).
+  destruct (coros_upto_bounds (f_org f) (f_pos f) nc np Hnc) as (Hcb&Hcb2).
+  rewrite Epb in *.
+  set (cb := coros_upto (f_org f) (f_pos f) nc) in *.
+  set (head := EClock (f_t f) (s_curw s) (s_curh s)
+               :: procs (s_curw s) dt 0 (S pos) ++ coros (s_curw s) 0 cb).
   set (fm := {| a_prev := Some (f_t f); a_mode := MFrame (s_curw s) (s_curh s) dt (S pos) |}).
   assert (Head : forall rest, run14 nps a (head ++ lp ++ rest) = run14 nps fm rest).
   { intros rest. unfold head. cbn [app run14].
     rewrite (ready_clock a (EClock (f_t f) (s_curw s) (s_curh s)) Rd Logic.I).
     cbn [clock14]. rewrite Hp. fold dt.
-    rewrite run14_app, run14_procs. cbn [Nat.add].
+    rewrite <- app_assoc, run14_app, run14_procs. cbn [Nat.add].
+    rewrite run14_app, run14_coros by (destruct Hcb2; [left|right]; auto).
     rewrite run14_app, (run14_skip_frame lp _ _ _ _ _ Lp). reflexivity. }
   (* both kinds of acting processor end in after_action *)
   assert (Fin : forall x s2 l2 r2,
@@ -410,15 +431,15 @@ Proof.
                                 | _ => MPend (pend_of r2 s2 PSwitch)
                                 end |} tail) ->
     prefix (head ++ lp)
-           (after_action fuel x (procs (s_curw s) dt (S pos) (np - S pos))) = Some (s', l, r) ->
+           (after_action fuel x (procs (s_curw s) dt (S pos) (np - S pos)
+                                 ++ coros (s_curw s) cb (nc - cb))) = Some (s', l, r) ->
     inv s' /\ cur_ok s' /\
     exists a', run14 nps a l = Some a' /\ a_prev a' = Some (f_t f) /\ end_mode r s' (a_mode a')).
   { intros x s2 l2 r2 Ex I2 C2 Run. unfold prefix.
-    destruct (after_action fuel x (procs (s_curw s) dt (S pos) (np - S pos)))
-      as [[[s3 l3] r3]|] eqn:AA; [|discriminate].
+    destruct (after_action fuel x _) as [[[s3 l3] r3]|] eqn:AA; [|discriminate].
     st_inv.
-    destruct (after14 fuel x (procs (s_curw s) dt (S pos) (np - S pos)) (s_curw s) (s_curh s) dt
-                pos (f_t f) s2 l2 r2 s3 l3 r3 Ex I2 C2 Run eq_refl Hpos AA)
+    destruct (after14 fuel x (s_curw s) (s_curh s) dt (S pos) cb nc (f_t f) s2 l2 r2 s3 l3 r3
+                Ex I2 C2 Run Hpos AA)
       as (I3&C3&a'&R'&P'&M').
     split; [exact I3|]. split; [exact C3|]. exists a'. rewrite <- app_assoc, Head. auto. }
   assert (StepAct : forall a0 st rest,
@@ -432,7 +453,8 @@ Proof.
   assert (Other : f_act f <> ANormal -> is_direct (f_act f) = false ->
     prefix (head ++ lp)
       (after_action fuel (perform (react_n fuel) (f_org f) (f_act f) s1)
-                    (procs (s_curw s) dt (S pos) (np - S pos))) = Some (s', l, r) ->
+                    (procs (s_curw s) dt (S pos) (np - S pos)
+                     ++ coros (s_curw s) cb (nc - cb))) = Some (s', l, r) ->
     nok10 l = true ->
     inv s' /\ cur_ok s' /\
     exists a', run14 nps a l = Some a' /\ a_prev a' = Some (f_t f) /\ end_mode r s' (a_mode a')).
@@ -454,8 +476,11 @@ Proof.
     try (apply Other; [discriminate|reflexivity]).
   - (* nothing *)
     st_inv. intros _. split; [exact I1|]. split; [exact C1|].
-    rewrite Head. unfold fm. rewrite run14_procs. eexists. split; [reflexivity|].
-    split; [reflexivity|]. right. exists (s_curw s), (s_curh s), dt. cbn. f_equal. fold np. lia.
+    rewrite Head. unfold fm. rewrite run14_app, run14_procs.
+    replace (S pos + (np - S pos))%nat with np by lia.
+    rewrite run14_coros by (right; reflexivity).
+    eexists. split; [reflexivity|].
+    split; [reflexivity|]. right. exists (s_curw s), (s_curh s), dt. reflexivity.
   - (* a direct switch inside the frame *)
     intros E _.
     destruct (direct fuel (f_org f) hd ccd cnd s1) as [[[s2 l2] r2]|] eqn:D; [|discriminate].
@@ -478,7 +503,7 @@ Qed.
 Lemma frames14 fuel ek fs : forall last s s' l r a,
   ready (a_mode a) -> a_prev a = last -> inv s -> cur_ok s ->
   forallb frame_origin_ok fs = true ->
-  run_frames fuel nps last fs ek s = Some (s', l, r) -> nok10 l = true ->
+  run_frames fuel nps ncs last fs ek s = Some (s', l, r) -> nok10 l = true ->
   inv s' /\ cur_ok s' /\
   exists a', run14 nps a l = Some a' /\ r <> FCont /\ end_mode r s' (a_mode a').
 Proof.
@@ -487,7 +512,7 @@ Proof.
     rewrite (ready_clock a (EClockEnd ek (s_curw s) (s_curh s)) Rd Logic.I).
     destruct ek; cbn; eexists; (split; [reflexivity|]); split; try discriminate; reflexivity.
   - cbn [forallb] in Fo. apply andb_prop in Fo as [Fo1 Fo2].
-    destruct (run_frame fuel nps last f s) as [[[s1 l1] r1]|] eqn:F; [|discriminate].
+    destruct (run_frame fuel nps ncs last f s) as [[[s1 l1] r1]|] eqn:F; [|discriminate].
     assert (Stop : r1 <> FCont -> Some (s1, l1, r1) = Some (s', l, r) -> nok10 l = true ->
               inv s' /\ cur_ok s' /\
               exists a', run14 nps a l = Some a' /\ r <> FCont /\ end_mode r s' (a_mode a')).
@@ -495,7 +520,7 @@ Proof.
       destruct (frame14 _ _ _ _ _ _ _ _ Rd Hp I C Fo1 F N) as (I1&C1&a1&R1&_&M1).
       split; [exact I1|]. split; [exact C1|]. exists a1. auto. }
     destruct r1; try (apply Stop; discriminate).
-    destruct (run_frames fuel nps (Some (f_t f)) fs ek s1) as [[[s2 l2] r2]|] eqn:FS; [|discriminate].
+    destruct (run_frames fuel nps ncs (Some (f_t f)) fs ek s1) as [[[s2 l2] r2]|] eqn:FS; [|discriminate].
     intros [= <- <- <-] N. apply nok10_app in N as [N1 N2].
     destruct (frame14 _ _ _ _ _ _ _ _ Rd Hp I C Fo1 F N1) as (I1&C1&a1&R1&P1&M1).
     destruct (IH _ _ _ _ _ a1 M1 P1 I1 C1 Fo2 FS N2) as (I2&C2&a2&R2&Hr2&M2).
@@ -504,11 +529,11 @@ Qed.
 
 Lemma start14_ok fs ek rs s s' last' l :
   inv s -> cur_ok s -> forallb frame_origin_ok fs = true ->
-  run_start nps None fs ek rs s = Some (s', last', l) -> nok10 l = true ->
+  run_start nps ncs None fs ek rs s = Some (s', last', l) -> nok10 l = true ->
   start14 nps l = true /\ last' = None /\ inv s' /\ cur_ok s'.
 Proof.
   intros I C Fo. unfold run_start.
-  destruct (run_frames (S (length rs)) nps None fs ek (set_reacts rs s)) as [[[s1 l1] r]|] eqn:FS;
+  destruct (run_frames (S (length rs)) nps ncs None fs ek (set_reacts rs s)) as [[[s1 l1] r]|] eqn:FS;
     [|discriminate].
   intros [= <- <- <-] N. apply nok10_app in N as [N _].
   assert (Rd : ready (a_mode (mp None PSwitch))) by (left; reflexivity).
@@ -524,17 +549,17 @@ Qed.
 End WithNps.
 
 (* ---- all operations of a case -------------------------------------------- *)
-Lemma ops14 nps (Hnps : nps_ok nps) ops : forall s,
+Lemma ops14 nps ncs (Hnps : nps_ok nps) (Hncs : nps_ok ncs) ops : forall s,
   inv s -> (cur_ok s \/ first_is_top ops = true) ->
   forallb op_ok ops = true ->
-  run_ops nps None ops s = true ->
+  run_ops nps ncs None ops s = true ->
   forallb (fun x => match fst x with
                     | OTop _ _ _ _ => true
                     | OStart _ _ _ => start14 nps (snd x)
                     end) ops = true.
 Proof.
   induction ops as [|[o obs] ops IH]; intros s I C W; cbn [run_ops forallb]; auto.
-  destruct (run_op nps None o s) as [[[s1 last1] l]|] eqn:R; [|discriminate].
+  destruct (run_op nps ncs None o s) as [[[s1 last1] l]|] eqn:R; [|discriminate].
   intros H. apply andb_prop in H as [H1 H2].
   apply log_eqb_eq in H1. subst obs. cbn [fst snd].
   cbn [forallb] in W. apply andb_prop in W as [W1 W2]. unfold op_ok in W1. cbn [fst snd] in W1.
@@ -546,7 +571,7 @@ Proof.
     apply top_escape_sw in W1. specialize (C2 W1).
     cbn [andb]. apply (IH (set_inh false s2)); auto.
   - destruct C as [C|C]; [|discriminate].
-    destruct (start14_ok nps Hnps _ _ _ _ _ _ _ I C W1 R N) as (A&->&I1&C1).
+    destruct (start14_ok nps ncs Hnps Hncs _ _ _ _ _ _ _ I C W1 R N) as (A&->&I1&C1).
     rewrite A. cbn [andb]. apply (IH s1); auto.
 Qed.
 
@@ -555,8 +580,8 @@ Theorem accepts_holds14 (c : rcase) :
 Proof.
   unfold wf_b, known14_b, any_entry, accepts, holds14, holds14_b. intros W K A.
   apply andb_prop in W as [W _]. apply andb_prop in W as [W Wf]. apply andb_prop in W as [Wn Wt].
-  apply andb_prop in Wn as [_ Wn].
-  apply (ops14 (c_nps c) Wn (c_ops c) init); auto.
+  apply andb_prop in Wn as [Wc Wn]. apply andb_prop in Wc as [_ Wc].
+  apply (ops14 (c_nps c) (c_ncs c) Wn Wc (c_ops c) init); auto.
   apply inv_init.
 Qed.
 
@@ -583,7 +608,7 @@ Lemma clock14_phi prev e a' m :
   | _ => phi a' = phi {| a_prev := prev; a_mode := m |} + d0 e
   end.
 Proof.
-  intros H Hm. unfold phi, prevval, pend. destruct e as [t w h|k w h| | | | | | | |]; try discriminate.
+  intros H Hm. unfold phi, prevval, pend. destruct e as [t w h|k w h| | | | | | | | |]; try discriminate.
   - injection H as <-. cbn. destruct prev; split; auto; lia.
   - destruct k; injection H as <-; cbn; split; auto;
       destruct m as [w0 h0 dt0 [|k0]| | |]; try contradiction; lia.
@@ -605,7 +630,7 @@ Proof.
     { intros x. destruct (Nat.eqb k (np_of nps h)) eqn:K; [|discriminate].
       apply Nat.eqb_eq in K. pose proof (np_of_pos nps h Hn). intros ->. split; auto.
       destruct k; [lia|eauto]. }
-    destruct e as [t w0 h0|k0 w0 h0|w0 p d| |o a0 w0 h0| | | | |].
+    destruct e as [t w0 h0|k0 w0 h0|w0 p d|wc cc0| |o a0 w0 h0| | | | |].
     + intros H. apply K in H as [H [k' ->]].
       destruct (clock14_phi _ _ _ (MFrame w h dt (S k')) H Logic.I) as [A B].
       split; [exact A|]. split; [reflexivity|exact B].
@@ -615,6 +640,8 @@ Proof.
       apply andb_prop in Q as [Q Q3]. apply andb_prop in Q as [Q1 Q2].
       apply Nat.eqb_eq in Q2. subst k. intros [= <-]. unfold phi, prevval, pend. cbn.
       split; auto. destruct p; cbn; lia.
+    + destruct (Nat.eqb k (np_of nps h) && (wc =? w)) eqn:Q; [|discriminate].
+      intros [= <-]. split; auto. unfold phi. cbn. lia.
     + intros [= <-]. split; auto. unfold phi. cbn. lia.
     + destruct k; [discriminate|]. cbn [Nat.ltb Nat.leb].
       assert (A' : forall w1 h1, act14' {| a_prev := prev; a_mode := MFrame w h dt (S k) |} a0 w1 h1
@@ -631,7 +658,7 @@ Proof.
     + intros H. apply K in H as [H _]. discriminate.
     + intros H. apply K in H as [H _]. discriminate.
     + intros H. apply K in H as [H _]. discriminate.
-  - destruct e as [t w0 h0|k0 w0 h0| | |o a0 w0 h0| | |out w0 h0| |]; try discriminate.
+  - destruct e as [t w0 h0|k0 w0 h0| | | |o a0 w0 h0| | |out w0 h0| |]; try discriminate.
     + destruct p; try discriminate. intros H.
       destruct (clock14_phi _ _ _ (MPend PSwitch) H Logic.I) as [A B].
       split; [exact A|]. split; [reflexivity|exact B].
@@ -646,7 +673,7 @@ Proof.
         unfold phi, prevval, pend; cbn; split; auto; lia.
       * intros [= <-]. unfold phi, prevval, pend; cbn; split; auto; lia.
       * intros [= <-]. unfold phi, prevval, pend; cbn; split; auto; lia.
-  - destruct e as [| | | | | |w0 e| | |]; try discriminate. destruct e; try discriminate.
+  - destruct e as [| | | | | | |w0 e| | |]; try discriminate. destruct e; try discriminate.
     destruct (w0 =? w); [|discriminate]. intros [= <-].
     unfold phi, prevval, pend; cbn; split; auto; lia.
   - discriminate.
@@ -671,7 +698,7 @@ Proof.
     assert (Rd : forall t w h, e = EClock t w h ->
               a_prev a' = match rev (readings l) ++ [t] with t' :: _ => Some t' | [] => a_prev a end).
     { intros t w h ->. rewrite IH2, P1. destruct (rev (readings l)); reflexivity. }
-    destruct e as [t w h| | | | | | | | |]; cbn [readings rev d0] in *;
+    destruct e as [t w h| | | | | | | | | |]; cbn [readings rev d0] in *;
       try (rewrite P1 in *; split; [lia|exact IH2]).
     destruct P2 as [P2 P3]. rewrite P1 in IH1. split; [|eapply Rd; eauto].
     unfold phi in *. unfold prevval in *. destruct (a_prev a); lia.
